@@ -34,6 +34,8 @@ structure Fn where
   items : List Item
   fails : Option String            -- the body raises this kind of exception after its items
   usesExt : Bool                   -- the result mentions the non-accepted companion module's `extf()`
+  ws : Option Bool := none         -- the body ends with a statement whose meaning depends on its indentation only:
+                                   -- `some true`: indented under `if False:` (not executed), `some false`: dedented (executed)
 
 structure World where
   funs : List Fn
